@@ -206,6 +206,8 @@ structure R where
   the directory bytes (a Peek window / the scratch buffer) may then have been overwritten, which this model
   does not describe; the correspondence is one-sided for such inputs (DESIGN section 6) -/
   hazard : Bool := false
+  /-- ghost: every value read so far, with the bytes it returned (see `readTagValue`) -/
+  reads : List (Tag × Option Bytes) := []
   deriving Repr, Inhabited
 
 def bufioSize : Nat := 4096
@@ -251,11 +253,17 @@ def fastRead (r : R) (n : Nat) : Rd :=
     else { r := { r with rest := r.rest.drop n, po := (r.po + n) % 2 ^ 32 }, buf := r.rest.take n, err := none }
 
 /-- `ir.readTagValue(t)` -/
-def readTagValue (r : R) (t : Tag) : Rd :=
+def readTagValue0 (r : R) (t : Tag) : Rd :=
   let r := if t.isEmbedded then { r with hazard := true } else r
   match discard r ((t.off : Int) - r.po) with
   | (r1, some e) => { r := r1, buf := [], err := some e }
   | (r1, none) => fastRead r1 t.size
+
+/-- `readTagValue0` plus a ghost record of the read: which tag asked, and the bytes it got (`none` when the read failed).
+The record is observed by no function of the model; it exists so that theorems can speak about every read of a run. -/
+def readTagValue (r : R) (t : Tag) : Rd :=
+  let rd := readTagValue0 r t
+  { rd with r := { rd.r with reads := rd.r.reads ++ [(t, if rd.err.isNone then some rd.buf else none)] } }
 
 /-! ### pending-tag buffer -/
 
